@@ -135,3 +135,8 @@ for b in range(1, 5):
        assumes=['bitfield::Bitfield::count_zeros (l1a_fill_count_zeros)', 'ghost zeros lemma Z2 (l1a_zeros_lemmas_o*)'], cover=(b == 2))
 ob('lower::c09_init_zero_frames', ['C09', 'C06'], ['lower::Lower::free_all', 'lower::Lower::reserve_all', 'lower::Lower::recover', 'lower::Lower::stats'],
    bound='frame count 0, every initialisation mode', cover=False)
+
+for n in (2, 3):
+    ob(f'trees::c16_search_best_n{n}', ['C16'], ['trees::Trees::search_best', 'util::SortedBuffer::add', 'util::SortedBuffer::iter'], kind='config-bounded',
+       bound=f'4 trees, capacity {n}, every start, every rating assignment (Match(any)/Demote/Steal/Invalid per tree), every reserved-flag pattern',
+       assumes=['std <[T]>::rotate_right / rotate_left(1) (assumed contract of the standard library)'], timeout=900)
